@@ -27,6 +27,7 @@
 #include "mjbuild.h"
 #include "engine/engine_derivative.h"
 #include "engine/engine_forward.h"
+#include "engine/engine_util_misc.h"
 
 static jmp_buf jb;
 static int armed = 0;
@@ -314,6 +315,24 @@ static void op_qderiv(char** tok, int n) {
     for (int i = 0; i < m->nu; i++) { ci[4 * i] = m->actuator_ctrllimited[i]; ci[4 * i + 1] = m->actuator_ctrlrange[2 * i];
                                       ci[4 * i + 2] = m->actuator_ctrlrange[2 * i + 1]; ci[4 * i + 3] = d->ctrl[i]; }
     pmat("ctrlinfo", ci, 4L * m->nu); free(ci); }
+  // classification aid: for how many ellipsoid-fluid geoms is the mjMINVAL guard of mjd_viscous_drag
+  // (dA_coef = pi / max(mjMINVAL, sqrt(proj_num^3 proj_denom))) active at this state?  (quantities as documented there)
+  { double cnt = 0;
+    for (int g = 0; g < m->ngeom; g++) {
+      if (!(m->geom_fluid[mjNFLUID * g] > 0)) continue;
+      double sa[3], lv[6], w6[6] = {0, 0, 0, m->opt.wind[0], m->opt.wind[1], m->opt.wind[2]}, lw[6];
+      int b = m->geom_bodyid[g];
+      mju_geomSemiAxes(sa, m->geom_size + 3 * g, (mjtGeom)m->geom_type[g]);
+      mj_objectVelocity(m, d, mjOBJ_GEOM, g, lv, 1);
+      mju_transformSpatial(lw, w6, 0, d->geom_xpos + 3 * g, d->subtree_com + 3 * m->body_rootid[b], d->geom_xmat + 9 * g);
+      double x = lv[3] - lw[3], y = lv[4] - lw[4], z = lv[5] - lw[5];
+      double a = sa[1] * sa[2], bb = sa[2] * sa[0], c = sa[0] * sa[1];
+      a *= a; bb *= bb; c *= c;
+      double den = a * a * x * x + bb * bb * y * y + c * c * z * z, num = a * x * x + bb * y * y + c * z * z;
+      int degenerate = sa[0] == sa[1] && sa[1] == sa[2];
+      if (!degenerate && (x || y || z) && sqrt(num * num * num * den) < mjMINVAL) cnt += 1;
+    }
+    pmat("fluidguard", &cnt, 1); }
   free(buf);
   saved_integ = -1;
   armed = 0;
